@@ -15,6 +15,11 @@ import Qryn.Proofs.SameShape
 import Qryn.Proofs.SameShapeMetric
 import Qryn.Proofs.TempoClosed
 import Qryn.Proofs.RawSqlCensus
+import Qryn.Proofs.PlanClosedMetricX
+import Qryn.Proofs.SameShapeMetricX
+import Qryn.Proofs.SameShapeTraceQL
+import Qryn.Proofs.ProfPlansRender
+import Qryn.Proofs.PromLabelsClosed
 /-! # C10 — request strings can never change the structure of SQL sent to ClickHouse
 
 Property theorems only. Model: `Qryn.Sql.quote` (= `StringVal.String`, table regenerated from
@@ -485,6 +490,244 @@ theorem same_shape_values (c : LogQL.Ctx) (key key' : Bytes) (ms ms' : List LogQ
   ⟨same_shape_same_structure _ _ (LogQL.wf_planValues c key _ ht) (LogQL.wf_planValues c key' _ ht) (LogQL.planValues_sameShape c key key' ms ms' h).1,
    same_shape_same_structure _ _ (LogQL.wf_planValues c key _ ht) (LogQL.wf_planValues c key' _ ht) (LogQL.planValues_sameShape c key key' ms ms' h).2⟩
 
+/-! ## The labelled metric path: `| json`, `| regexp`, `| drop` inside a metric selector, `quantile_over_time` -/
+
+/-- **plan_closed_metricx.** EVERY plan of C08's extended metric planner model `planMetricX` (range aggregations, unwrap
+    functions and `quantile_over_time` over selectors that carry the SQL-side stages `| json l="path",…`, `| regexp`, `| drop`
+    and line / label filters after them — `planSpl` with `labelsJoinIdx != -1`: the samples joined with their series' labels,
+    one SELECT per run of stages (`MainRenewPlanner`), `LRAPlanner.WithLabels`, `ByWithoutPlanner.processSimple`,
+    `QuantilePlanner`, `AggOpPlanner` with labels, topk, comparisons, step fix, finalizer): for every context with closed table
+    names the statement is well formed for its leaves and its token structure does not depend on them. Leaves: everything
+    `plan_closed_metric` and `plan_closed_logx` list — matcher names/values, needles, regexes, label-filter values, json labels
+    and path name parts, regexp group names and pattern, drop names and values, the names of label filters after a parser /
+    drop, by/without labels, the unwrap label. The quantile parameter is a number (`%f`: digits and a point for every value).
+    Hypothesis on request text: only the names of label filters BEFORE the first parser / drop are `LabelName` tokens. -/
+theorem plan_closed_metricx (c : LogQL.MCtx) (q : LogQL.MetricQueryX) (h : LogQL.MAtomsOK c) (hn : LogQL.MetricXNamesOK q) :
+    safeSegs .normal (segsSel (LogQL.planMetricX c q)) = true ∧
+    kinds (renderSel (LogQL.planMetricX c q)) = kinds (renderSegs ((segsSel (LogQL.planMetricX c q)).map Seg.shape)) :=
+  have hw := LogQL.wf_planMetricX c q h hn
+  ⟨closed_fragments_partial _ hw, render_structure_invariant_sel _ hw⟩
+
+/-- **same_shape_metricx.** Two metric queries of the labelled path with equal SKELETONS (`sameShapeMX`: everything equal but the
+    contents of string leaves — kept are operators, stage kinds and order, and/or trees, label-filter names and numbers, the
+    literal-regex flag, whether a needle is empty, json path part kinds and index parts, the numbers of json parameters / regexp
+    groups / drop entries, whether a drop entry has a value, whether the unwrap label is `_entry`, functions, durations, the
+    quantile parameter, `k`, comparison literals, the number of by/without labels) are planned, in the same context, to
+    statements with the same token structure. Proof: `shapeS (planMetricX c q) = shapeS (planMetricX c q.skel)`, pushed through
+    `chExpr`, `runSel`, `groupRuns`, `planRunsM`, `sourceX`, `quantileSel` and the matrix builders. -/
+theorem same_shape_metricx (c : LogQL.MCtx) (q1 q2 : LogQL.MetricQueryX) (h : LogQL.MAtomsOK c) (hn1 : LogQL.MetricXNamesOK q1)
+    (hn2 : LogQL.MetricXNamesOK q2) (hs : LogQL.sameShapeMX q1 q2) :
+    kinds (renderSel (LogQL.planMetricX c q1)) = kinds (renderSel (LogQL.planMetricX c q2)) :=
+  same_shape_same_structure _ _ (LogQL.wf_planMetricX c q1 h hn1) (LogQL.wf_planMetricX c q2 h hn2)
+    (LogQL.planMetricX_sameShape c q1 q2 hs)
+
+/-! ## TraceQL: two requests of the same shape, from a relation on QUERIES -/
+
+/-- **same_shape_traceql.** `sameShapeT s₁ s₂` — the two TraceQL ASTs have equal SKELETONS: the same selectors, script
+    operators and presence of condition / aggregator; per selector the same boolean tree over the INTERNED terms (the planner
+    de-duplicates terms whose text is equal, so the relation keeps WHICH terms are equal) and, term by term, the same class
+    of attribute name (`span.` / `resource.` / `.` attribute — the rest of the name is free —, `duration`, `name`, other),
+    the same operator, the same KIND of value with equal number / duration literals (numbers are tokens of the statement) and,
+    for a string, only whether `Unquote` succeeds — the string itself is free; aggregator: same function, comparison, number,
+    unit and attribute class. Then, in the same context: the planner accepts both or neither, and the two statements have the
+    same token structure. Covers every script incl. `{}` (no condition: the `attrless` statement), several selectors under
+    `&&` / `||`, aggregators, portions, cached trace ids. Proof: `Except.map shapeS (plan c s₁) = Except.map shapeS (plan c s₂)`
+    by walking the planner (`termSql`, `analyzeCond` / `internTerm`, `condSql`, `attrCondition`, `aggregator`, `simpleSel`,
+    `complexSel`, `treeSel`, `rootSel`, `tracesData`), not from equal emptied segment lists. -/
+theorem same_shape_traceql (c : TraceQL.Ctx) (hc : TraceQL.CtxOK c) (s1 s2 : TraceQL.Script) (h : TraceQL.sameShapeT s1 s2) :
+    (TraceQL.plan c s1).isOk = (TraceQL.plan c s2).isOk ∧
+    ∀ X1 X2, TraceQL.plan c s1 = .ok X1 → TraceQL.plan c s2 = .ok X2 → kinds (renderSel X1) = kinds (renderSel X2) :=
+  ⟨TraceQL.plan_isOk_sameShape c s1 s2 h, fun X1 X2 h1 h2 =>
+    same_shape_same_structure _ _ (TraceQL.wf_plan c hc s1 X1 h1) (TraceQL.wf_plan c hc s2 X2 h2)
+      (TraceQL.plan_sameShape c s1 s2 X1 X2 h h1 h2)⟩
+
+/-- … the tag-names request (`PlanTagsV2`) -/
+theorem same_shape_traceql_tags (c : TraceQL.Ctx) (hc : TraceQL.CtxOK c) (kvTable : String) (hkv : rawE (b kvTable) = true)
+    (s1 s2 : TraceQL.Script) (h : TraceQL.sameShapeT s1 s2) :
+    (TraceQL.planTags c kvTable s1).isOk = (TraceQL.planTags c kvTable s2).isOk ∧
+    ∀ X1 X2, TraceQL.planTags c kvTable s1 = .ok X1 → TraceQL.planTags c kvTable s2 = .ok X2 →
+      kinds (renderSel X1) = kinds (renderSel X2) :=
+  ⟨TraceQL.planTags_isOk_sameShape c kvTable s1 s2 h, fun X1 X2 h1 h2 =>
+    same_shape_same_structure _ _ (TraceQL.wf_planTags c hc kvTable hkv s1 X1 h1) (TraceQL.wf_planTags c hc kvTable hkv s2 X2 h2)
+      (TraceQL.planTags_sameShape c kvTable s1 s2 X1 X2 h h1 h2)⟩
+
+/-- … the tag-values request (`PlanValuesV2`): ANY two requested tags -/
+theorem same_shape_traceql_values (c : TraceQL.Ctx) (hc : TraceQL.CtxOK c) (kvTable : String) (hkv : rawE (b kvTable) = true)
+    (key1 key2 : Bytes) (s1 s2 : TraceQL.Script) (h : TraceQL.sameShapeT s1 s2) :
+    (TraceQL.planValues c kvTable key1 s1).isOk = (TraceQL.planValues c kvTable key2 s2).isOk ∧
+    ∀ X1 X2, TraceQL.planValues c kvTable key1 s1 = .ok X1 → TraceQL.planValues c kvTable key2 s2 = .ok X2 →
+      kinds (renderSel X1) = kinds (renderSel X2) :=
+  ⟨TraceQL.planValues_isOk_sameShape c kvTable key1 key2 s1 s2 h, fun X1 X2 h1 h2 =>
+    same_shape_same_structure _ _ (TraceQL.wf_planValues c hc kvTable hkv key1 s1 X1 h1)
+      (TraceQL.wf_planValues c hc kvTable hkv key2 s2 X2 h2) (TraceQL.planValues_sameShape c kvTable key1 key2 s1 s2 X1 X2 h h1 h2)⟩
+
+/-- the syntactic reading of the relation: the same tree (constructors, boolean operators), the same term class at every
+    position, the same pattern of textually equal terms, the same aggregator class and script operators imply `sameShapeT` -/
+theorem same_syntax_same_shape_traceql (s1 s2 : TraceQL.Script) (h : TraceQL.sameSyntaxT s1 s2) : TraceQL.sameShapeT s1 s2 :=
+  TraceQL.sameShapeT_of_sameSyntaxT s1 s2 h
+
+/-! ## The Pyroscope read statements around the selector -/
+
+/-- a request of the fingerprint planner: what `getMatchers` (`Prof.plan`) makes of SOME selector list, for some `gre` -/
+def ProfPlanned (q : Prof.PQuery) : Prop :=
+  ∃ (gre : Bytes → Bytes → Bool) (table : String) (f t : Bytes) (ss : List Prof.Selector), Prof.plan gre table f t ss = some q
+
+theorem ProfPlanned.ok {q : Prof.PQuery} (h : ProfPlanned q) : Prof.PQueryOK q := by
+  obtain ⟨gre, table, f, t, ss, hp⟩ := h
+  exact Prof.plan_queryOK gre table f t ss q hp
+
+private theorem closedBoth (segs : List Seg) (h : safeSegs .normal segs = true) :
+    safeSegs .normal segs = true ∧ kinds (renderSegs segs) = kinds (renderSegs (segs.map Seg.shape)) :=
+  ⟨h, render_structure_invariant _ h⟩
+
+/-- **plan_closed_prof_merge_profiles / _analyze.** `MergeProfilesPlanner` (SelectMergeProfile) and `ProfileSizePlanner` around
+    it (AnalyzeQuery): for every planner context with closed table names, EVERY selector list of the fingerprint planner and
+    of the planner's own global matchers (every `gre`): the statement — WITH `fp` = the selector statement, the payload scan
+    with window, limit and the global conditions — is well formed for its leaves; selector names, values, regular expressions
+    (also inside the `arrayExists(x -> …)` closure of a pseudo label) and the date bounds are leaves. -/
+theorem plan_closed_prof_merge_profiles (c : Prof.PCtx) (hc : Prof.PCtxOK c) (fp m : Prof.PQuery) (hfp : ProfPlanned fp)
+    (hm : ProfPlanned m) :
+    (safeSegs .normal (Prof.mergeProfilesSegs c fp m.globals) = true ∧
+      kinds (renderSegs (Prof.mergeProfilesSegs c fp m.globals)) =
+        kinds (renderSegs ((Prof.mergeProfilesSegs c fp m.globals).map Seg.shape))) ∧
+    (safeSegs .normal (Prof.analyzeQuerySegs c fp) = true ∧
+      kinds (renderSegs (Prof.analyzeQuerySegs c fp)) = kinds (renderSegs ((Prof.analyzeQuerySegs c fp).map Seg.shape))) :=
+  ⟨closedBoth _ (Prof.mergeProfiles_closed c fp m.globals hc hfp.ok hm.ok.1),
+   closedBoth _ (Prof.analyzeQuery_closed c fp hc hfp.ok)⟩
+
+/-- **plan_closed_prof_merge_traces.** `MergeRawPlanner` → `MergeJoinedPlanner` → `MergeAggregatedPlanner`
+    (SelectMergeStacktraces, SelectMergeSpanProfile, render, render-diff): additionally the `sampleType:sampleUnit` part of the
+    profile type id — written inside the closure `arrayMap(x -> … arrayFirst(y -> y.1 == <typeUnit>, x.4) …)` — is ANY byte
+    string (a leaf). -/
+theorem plan_closed_prof_merge_traces (c : Prof.PCtx) (hc : Prof.PCtxOK c) (typeUnit : Bytes) (fp m : Prof.PQuery)
+    (hfp : ProfPlanned fp) (hm : ProfPlanned m) :
+    safeSegs .normal (Prof.mergeTracesSegs c typeUnit fp m.globals) = true ∧
+      kinds (renderSegs (Prof.mergeTracesSegs c typeUnit fp m.globals)) =
+        kinds (renderSegs ((Prof.mergeTracesSegs c typeUnit fp m.globals).map Seg.shape)) :=
+  closedBoth _ (Prof.mergeTraces_closed c typeUnit fp m.globals hc hfp.ok hm.ok.1)
+
+/-- **plan_closed_prof_select_series.** `GetLabelsPlanner` + `SelectSeriesPlanner` (SelectSeries): the `group_by` names
+    (`arrayFilter(x -> x.1 IN (<names>), p.tags)`), the type-id part in the value aggregate, every step and aggregation. -/
+theorem plan_closed_prof_select_series (c : Prof.PCtx) (hc : Prof.PCtxOK c) (typeUnit : Bytes) (avg : Bool) (step : Int)
+    (groupBy : List Bytes) (fp m : Prof.PQuery) (hfp : ProfPlanned fp) (hm : ProfPlanned m) :
+    safeSegs .normal (Prof.selectSeriesSegs c typeUnit avg step groupBy fp m.globals) = true ∧
+      kinds (renderSegs (Prof.selectSeriesSegs c typeUnit avg step groupBy fp m.globals)) =
+        kinds (renderSegs ((Prof.selectSeriesSegs c typeUnit avg step groupBy fp m.globals).map Seg.shape)) :=
+  closedBoth _ (Prof.selectSeries_closed c typeUnit avg step groupBy fp m.globals hc hfp.ok hm.ok.1)
+
+/-- **plan_closed_prof_series.** Series: no selector set (`AllTimeSeriesSelectPlanner`), one (`TimeSeriesSelectPlanner` +
+    `FilterLabelsPlanner`), two or more (UNION ALL under `TimeSeriesDistinctPlanner`): the `label_names` entries are leaves. -/
+theorem plan_closed_prof_series (c : Prof.PCtx) (hc : Prof.PCtxOK c) (labels : List Bytes) :
+    (∀ sel : Option Prof.PQuery, (∀ q, sel = some q → ProfPlanned q) →
+      safeSegs .normal (Prof.planSeriesSegs c labels sel) = true ∧
+      kinds (renderSegs (Prof.planSeriesSegs c labels sel)) = kinds (renderSegs ((Prof.planSeriesSegs c labels sel).map Seg.shape))) ∧
+    (∀ scripts : List Prof.PQuery, (∀ q ∈ scripts, ProfPlanned q) →
+      safeSegs .normal (Prof.seriesUnionSegs c labels scripts) = true ∧
+      kinds (renderSegs (Prof.seriesUnionSegs c labels scripts)) =
+        kinds (renderSegs ((Prof.seriesUnionSegs c labels scripts).map Seg.shape))) :=
+  ⟨fun sel h => closedBoth _ (Prof.planSeries_closed c labels sel hc (fun q hq => (h q hq).ok)),
+   fun scripts h => closedBoth _ (Prof.seriesUnion_closed c labels scripts hc (fun q hq => (h q hq).ok))⟩
+
+/-- **plan_closed_prof_labels.** LabelNames (`key`) and LabelValues (`val`, the requested label name ANY bytes): without a
+    selector set, and with one or more (`fp` = the UNION ALL of their selector statements). -/
+theorem plan_closed_prof_labels (c : Prof.PCtx) (hc : Prof.PCtxOK c) (label : Option Bytes) :
+    (∀ col, col = "key" ∨ col = "val" →
+      safeSegs .normal (Prof.labelsNoSelSegs c col label) = true ∧
+      kinds (renderSegs (Prof.labelsNoSelSegs c col label)) = kinds (renderSegs ((Prof.labelsNoSelSegs c col label).map Seg.shape))) ∧
+    (∀ col, col = "key" ∨ col = "val" → ∀ scripts : List Prof.PQuery, (∀ q ∈ scripts, ProfPlanned q) →
+      safeSegs .normal (Prof.labelsUnionSegs c col label scripts) = true ∧
+      kinds (renderSegs (Prof.labelsUnionSegs c col label scripts)) =
+        kinds (renderSegs ((Prof.labelsUnionSegs c col label scripts).map Seg.shape))) := by
+  have hcol : ∀ col : String, col = "key" ∨ col = "val" → rawE (b col) = true := by
+    rintro col (rfl | rfl)
+    · exact Prof.col_key
+    · exact Prof.col_val
+  exact ⟨fun col h => closedBoth _ (Prof.labelsNoSel_closed c col label hc (hcol col h)),
+    fun col h scripts hs => closedBoth _ (Prof.labelsUnion_closed c col label scripts hc (hcol col h) (fun q hq => (hs q hq).ok))⟩
+
+/-- the segment views are the texts of C13's `Sel` terms (`Prof/Planners.lean`, tied byte for byte to the real planners by the
+    `model-prof-plans` stream), FULL statement: for every statement, whenever the request strings the model routes through a
+    `String` survive `utf8` -/
+def prof_segs_are_model_text_full : Prop :=
+  ∀ (c : Prof.PCtx) (typeUnit : Bytes) (avg : Bool) (step : Int) (names : List Bytes) (label : Option Bytes) (fp m : Prof.PQuery)
+    (scripts : List Prof.PQuery),
+    Prof.PQueryU fp → (∀ g ∈ m.globals, g.okU) → (∀ q ∈ scripts, Prof.PQueryU q) → Prof.Utf8OK (quote typeUnit) →
+    Prof.Utf8OK (renderExpr (.isIn (.raw "x.1") (names.map .str))) → Prof.Utf8OK (renderExpr (eq (.raw "x.1") (.str typeUnit))) →
+    renderSegs (Prof.mergeProfilesSegs c fp m.globals) = renderSel (Prof.mergeProfiles c fp m.globals) ∧
+    renderSegs (Prof.mergeTracesSegs c typeUnit fp m.globals) = renderSel (Prof.mergeTraces c typeUnit fp m.globals) ∧
+    renderSegs (Prof.selectSeriesSegs c typeUnit avg step names fp m.globals) =
+      renderSel (Prof.selectSeries c typeUnit avg step (Prof.getLabels c names fp m.globals) m.globals) ∧
+    renderSegs (Prof.planSeriesSegs c names (some fp)) = renderSel (Prof.planSeries c names (some fp)) ∧
+    renderSegs (Prof.seriesUnionSegs c names scripts) = (Prof.seriesUnion c names scripts).render ∧
+    renderSegs (Prof.labelsUnionSegs c "val" label scripts) = (Prof.labelsUnion c "val" label scripts).render ∧
+    renderSegs (Prof.analyzeQuerySegs c fp) = renderSel (Prof.analyzeQuery c fp)
+
+/-- **prof_segs_are_model_text_partial.** PROVED part of the above: the selector statement, merge profiles, the raw select of
+    merge stack traces, the labels select of SelectSeries, the one-set series select, series without a selector, label
+    names / values without a selector set and the main select of the union form. MISSING (the `WITH` hoisting of the
+    statements stacked on these, and the two UNION statements): covered by execution — the `prof-segs` stream compares the
+    text of EVERY segment view with the real planners' text byte for byte. -/
+theorem prof_segs_are_model_text_partial (c : Prof.PCtx) (typeUnit : Bytes) (names : List Bytes) (label : Option Bytes) (col : String)
+    (fp m : Prof.PQuery) (hq : Prof.PQueryU fp) (hg : ∀ g ∈ m.globals, g.okU) :
+    renderSegs (Prof.selectorSegs c fp) = renderSel (Prof.selectorSel c fp) ∧
+    renderSegs (Prof.mergeProfilesSegs c fp m.globals) = renderSel (Prof.mergeProfiles c fp m.globals) ∧
+    (Prof.Utf8OK (quote typeUnit) →
+      renderSegs (Prof.mergeRawSegs c typeUnit fp m.globals) = renderSel (Prof.mergeRaw c typeUnit fp m.globals)) ∧
+    (Prof.Utf8OK (renderExpr (.isIn (.raw "x.1") (names.map .str))) →
+      renderSegs (Prof.getLabelsSegs c names fp m.globals) = renderSel (Prof.getLabels c names fp m.globals)) ∧
+    renderSegs (Prof.timeSeriesSelectSegs c fp m.globals) = renderSel (Prof.timeSeriesSelect c fp m.globals) ∧
+    renderSegs (Prof.allTimeSeriesSegs c) = renderSel (Prof.allTimeSeries c) ∧
+    renderSegs (Prof.labelsNoSelSegs c col label) = renderSel (Prof.labelsNoSel c col label) ∧
+    renderSegs (Prof.labelsSelSegs c col label true) = renderSel (Prof.labelsSel c col label true) :=
+  ⟨Prof.selectorSegs_render c fp hq, Prof.mergeProfilesSegs_render c fp m.globals hq hg,
+   fun hu => Prof.mergeRawSegs_render c typeUnit fp m.globals hq hg hu,
+   fun hu => Prof.getLabelsSegs_render c names fp m.globals hq hg hu,
+   Prof.timeSeriesSelectSegs_render c fp m.globals hq hg, Prof.allTimeSeriesSegs_render c,
+   Prof.labelsNoSelSegs_render c col label, Prof.labelsSelSegs_render c col label true⟩
+
+/-! ## The Prometheus metadata endpoints: labels, label values, series with `match[]` -/
+
+/-- **plan_closed_prom_labels / _values / _series.** `QueryLabelsService.PromLabels / PromValues / PromSeries` (model
+    `Prom/Labels.lean`, C17): for closed table names, EVERY list of `match[]` selectors the planner accepts (any number of
+    selectors, any matcher names / values / regular expressions, any `full`), every window and limit, and ANY bytes as the
+    label name of the URL path: the WHOLE statement — `WITH fp_sel as ( <fingerprintsQuery> UNION ALL … ) SELECT DISTINCT …
+    WHERE …` — is the rendering of a segment list (`render = renderSegs segs`) that is well formed for its leaves, so its
+    token structure does not depend on them. Also without `match[]` (no WITH). -/
+theorem plan_closed_prom_labels (full : Bytes → Bytes → Bool) (gin table : String) (hg : rawE (Prom.ascii gin) = true)
+    (ht : rawE (Prom.ascii table) = true) (w : Prom.Labels.Win) (sels : List (List Prom.Matcher)) (u : Prom.Labels.FpUnion)
+    (h : Prom.Labels.fpUnion full table w.fromDate w.tp sels = some u) :
+    (renderSegs (Prom.Labels.namesSegs gin w (some u)) = Prom.Labels.namesRender gin w (some u) ∧
+      safeSegs .normal (Prom.Labels.namesSegs gin w (some u)) = true ∧
+      kinds (Prom.Labels.namesRender gin w (some u)) = kinds (renderSegs ((Prom.Labels.namesSegs gin w (some u)).map Seg.shape))) ∧
+    (renderSegs (Prom.Labels.namesSegs gin w none) = Prom.Labels.namesRender gin w none ∧
+      safeSegs .normal (Prom.Labels.namesSegs gin w none) = true) := by
+  have h1 := Prom.Labels.names_closed full gin table hg ht w sels u h
+  refine ⟨⟨h1.1, h1.2, ?_⟩, Prom.Labels.names_closed_none gin hg w⟩
+  rw [← h1.1]; exact render_structure_invariant _ h1.2
+
+theorem plan_closed_prom_values (full : Bytes → Bytes → Bool) (gin table : String) (hg : rawE (Prom.ascii gin) = true)
+    (ht : rawE (Prom.ascii table) = true) (w : Prom.Labels.Win) (limit : Nat) (name : Bytes) (sels : List (List Prom.Matcher))
+    (u : Prom.Labels.FpUnion) (h : Prom.Labels.fpUnion full table w.fromDate w.tp sels = some u) :
+    (renderSegs (Prom.Labels.valuesSegs gin w limit name (some u)) = Prom.Labels.valuesRender gin w limit name (some u) ∧
+      safeSegs .normal (Prom.Labels.valuesSegs gin w limit name (some u)) = true ∧
+      kinds (Prom.Labels.valuesRender gin w limit name (some u)) =
+        kinds (renderSegs ((Prom.Labels.valuesSegs gin w limit name (some u)).map Seg.shape))) ∧
+    (renderSegs (Prom.Labels.valuesSegs gin w limit name none) = Prom.Labels.valuesRender gin w limit name none ∧
+      safeSegs .normal (Prom.Labels.valuesSegs gin w limit name none) = true) := by
+  have h1 := Prom.Labels.values_closed full gin table hg ht w limit name sels u h
+  refine ⟨⟨h1.1, h1.2, ?_⟩, Prom.Labels.values_closed_none gin hg w limit name⟩
+  rw [← h1.1]; exact render_structure_invariant _ h1.2
+
+theorem plan_closed_prom_series (full : Bytes → Bytes → Bool) (tsTable table : String) (hs : rawE (Prom.ascii tsTable) = true)
+    (ht : rawE (Prom.ascii table) = true) (w : Prom.Labels.Win) (limit : Nat) (sels : List (List Prom.Matcher))
+    (u : Prom.Labels.FpUnion) (h : Prom.Labels.fpUnion full table w.fromDate w.tp sels = some u) :
+    renderSegs (Prom.Labels.seriesSegs tsTable w limit u) = Prom.Labels.seriesRender tsTable w limit u ∧
+      safeSegs .normal (Prom.Labels.seriesSegs tsTable w limit u) = true ∧
+      kinds (Prom.Labels.seriesRender tsTable w limit u) = kinds (renderSegs ((Prom.Labels.seriesSegs tsTable w limit u).map Seg.shape)) := by
+  have h1 := Prom.Labels.series_closed full tsTable table hs ht w limit sels u h
+  refine ⟨h1.1, h1.2, ?_⟩
+  rw [← h1.1]; exact render_structure_invariant _ h1.2
+
 /-! ## Legacy Tempo: `?tags=` search, trace by id, tag values -/
 
 /-- **tempo_search_closed.** The statement `TempoService.Search` sends (`GetTracesQuery` around `SQLIndexQuery.String`: one
@@ -733,6 +976,39 @@ private theorem exNames' : LogQL.MetricNamesOK exMetric' := by
   · show LogQL.LabelClass "a"
     unfold LogQL.LabelClass; decide +kernel
 example := same_shape_metric exMCtx exMetric exMetric' ⟨exTablesCluster, by decide +kernel⟩ exNames exNames' (by decide +kernel)
+-- `plan_closed_metricx` / `same_shape_metricx`: topk over a grouped sum over a quantile over a selector with a json parameter,
+-- a regexp, a drop and filters after them, hostile leaves; and a copy with every string leaf replaced
+private def exRangeX : LogQL.RangeAggX :=
+  ⟨.quantile ⟨0, [9, 9]⟩ "l'--", exQuery,
+   [.ch (.json [([120, 39], [.key [48, 39, 41, 45, 45], .idx 1])]), .fl (.label (.str "x" .re [39, 41])),
+    .ch (.regexp [[103, 39], []] [40, 39, 92, 41]), .ch (.drop [([97, 39], []), ([98], [39, 59, 45, 45])]),
+    .fl (.line ⟨.contains, [39, 92], none⟩)],
+   60000000000, none, some ⟨false, ["';"]⟩, some ⟨.gt, ⟨1, [5]⟩⟩⟩
+private def exRangeX' : LogQL.RangeAggX :=
+  ⟨.quantile ⟨0, [9, 9]⟩ "z", exMetric'.rangeAgg.sel,
+   [.ch (.json [([], [.key [], .idx 1])]), .fl (.label (.str "x" .re [97])),
+    .ch (.regexp [[], [104]] []), .ch (.drop [([], []), ([99, 99], [100])]),
+    .fl (.line ⟨.contains, [97], none⟩)],
+   60000000000, none, some ⟨false, ["k"]⟩, some ⟨.gt, ⟨1, [5]⟩⟩⟩
+private def exMetricX : LogQL.MetricQueryX := ⟨exRangeX, some ⟨.sum, some ⟨true, ["a'b", "x\\"]⟩, none, none⟩, some ⟨true, 3, some ⟨.le, ⟨100, []⟩⟩⟩⟩
+private def exMetricX' : LogQL.MetricQueryX := ⟨exRangeX', some ⟨.sum, some ⟨true, ["q", ""]⟩, none, none⟩, some ⟨true, 3, some ⟨.le, ⟨100, []⟩⟩⟩⟩
+example := plan_closed_metricx exMCtx exMetricX ⟨exTablesCluster, by decide +kernel⟩ exNames
+example : LogQL.sameShapeMX exMetricX exMetricX' := by decide +kernel
+example := same_shape_metricx exMCtx exMetricX exMetricX' ⟨exTablesCluster, by decide +kernel⟩ exNames exNames' (by decide +kernel)
+-- one more group in the regexp, or a drop entry that gains a value: not the same shape
+example : ¬ LogQL.sameShapeMX exMetricX ⟨{ exRangeX with post := [.ch (.regexp [[103]] [40, 41])] }, none, none⟩ := by decide +kernel
+-- `same_shape_traceql`: two scripts that differ in every string leaf (a repeated term, `duration`, `name`, a number, `avg(attr)`),
+-- accepted by the planner; a broken repetition, another operator, another number are refused; `{}` is of its own shape
+example := (same_shape_traceql TraceQL.SameShapeEx.ctx0 (by constructor <;> decide +kernel) _ _ TraceQL.SameShapeEx.sameShape_A_B).2
+example : ¬ TraceQL.sameShapeT TraceQL.SameShapeEx.scriptB TraceQL.SameShapeEx.scriptC := TraceQL.SameShapeEx.notSameShape_B_C
+example : TraceQL.sameShapeT TraceQL.SameShapeEx.scriptEmpty TraceQL.SameShapeEx.scriptEmpty := TraceQL.SameShapeEx.sameShape_empty
+-- Pyroscope / Prometheus metadata: non-vacuity examples with hostile selector values, group_by names, type ids and label names are
+-- in Proofs/ProfPlansClosed.lean and below
+example : ProfPlanned ((Prof.plan (fun _ _ => false) "t" [50] [51]
+    [⟨[95, 95, 110, 97, 109, 101, 95, 95], .eq, [39]⟩, ⟨[39, 92], .re, [47, 42]⟩]).get (by decide +kernel)) :=
+  ⟨_, _, _, _, _, (Option.some_get _).symm⟩
+example : ∃ u, Prom.Labels.fpUnion (fun _ _ => false) "time_series_gin" [50] 2
+    [[⟨[39, 45, 45], .eq, [92, 39]⟩], [⟨[97], .nre, [39, 41, 59]⟩, ⟨[98], .re, [0]⟩]] = some u := ⟨_, rfl⟩
 -- Tempo: hostile tag names / values under all four conditions, every optional clause present
 private def exIdx : TempoSegs.Idx := ⟨b "`qryn`.tempo_traces_attrs_gin", 1700000000000000000, 1700003600000000000, 1000000, 10000000000, 20, true⟩
 private def exSearch : TempoSegs.Search := ⟨b "tempo_traces", 20, 1700000000000000000, 1700003600000000000, 1000000, 10000000000⟩
